@@ -482,8 +482,9 @@ func (e *Engine) byteRange(name, arr string) {
 		return
 	}
 	e.once[key] = true
-	e.useQuant = true
-	e.assumeGlobal(fmt.Sprintf("(forall ((r Int) (j Int)) (! (and (<= 0 (select (select %s r) j)) (<= (select (select %s r) j) 255)) :pattern ((select (select %s r) j))))", arr, arr, arr))
+	// Used when a counterexample is extracted for replay, not in the proof queries: there it can only prune models, and on
+	// some obligations it sends z3's quantifier instantiation astray (a 0.6 s proof became a timeout).
+	e.replayFacts = append(e.replayFacts, [2]string{arr, fmt.Sprintf("(assert (forall ((r Int) (j Int)) (! (and (<= 0 (select (select %s r) j)) (<= (select (select %s r) j) 255)) :pattern ((select (select %s r) j)))))", arr, arr, arr)})
 }
 
 func (e *Engine) setComp(h *Heap, name, term string) {
